@@ -112,7 +112,7 @@ def coq_make(targets=None, timeout=3000):
     with Lock():
         coq_project()
         tg = ' '.join(targets) if targets else ''
-        rc, out = sh(f'timeout {timeout} make -j{NCPU} {tg}', cwd=COQ, timeout=timeout + 60)
+        rc, out = sh(f'timeout {timeout} make -k -j{NCPU} {tg}', cwd=COQ, timeout=timeout + 60)      # -k: a broken proof must not keep the Run modules (needed by the search) from building
     return rc == 0, out
 
 
